@@ -63,10 +63,12 @@ VARIABLES a, b,        \* the two stacks (sequences of vectors)
 vars == <<a, b, pa, pb, method, sid, sigma, pc, res, mv>>
 
 AllMethods == {"cosine", "corr", "spearman", "kendall", "tau-a", "rho-a",
-               "cosine_cov", "corr_cov", "bures", "bures_metric"}
+               "cosine_cov", "corr_cov", "bures", "bures_metric", "neg_riem_dist"}
 CovMethods == {"cosine_cov", "corr_cov"}
 RankMethods == {"spearman", "kendall", "tau-a", "rho-a"}
 BuresMethods == {"bures", "bures_metric"}
+RiemMethods == {"neg_riem_dist"}          \* spec growth: not named by the statement of C03
+PointMethods == BuresMethods \cup RiemMethods   \* inputs are point configurations (embeddable RDMs)
 CentredMethods == {"corr", "corr_cov"}
 
 (* ---------------- small arithmetic --------------------------------------- *)
@@ -151,6 +153,40 @@ Nuc2(M) == IF Len(M) = 1 THEN M[1][1] * M[1][1]
                 + 2 * Abs(M[1][1] * M[2][2] - M[1][2] * M[2][1])
 BuresStat(ca, cb) == S3(Nuc2(CrossM(ca, cb)), TraceG(ca), TraceG(cb))
 
+(* ---------------- negative Riemannian distance (spec growth) -------------- *)
+\* The code maps an RDM to the second moment of the contrasts against the FIRST condition,
+\* G~ = P G P' with P = [-1 | I]: diagonal d(1,i), off-diagonal (d(1,i) + d(1,j) - d(i,j)) / 2, the noise
+\* to Sigma^ = P Sigma P', and returns  - min over (t0, t1) of
+\*      sqrt( sum_k log^2 lambda_k )   with lambda the generalised eigenvalues of
+\*      (exp(t0) G~1 + exp(t1) Sigma^) v = lambda G~2 v .
+\* The roles are NOT symmetric: the first RDM is rescaled and gets noise added, the second is the
+\* reference and has to be positive definite.  Exact here: 2 G~ and Sigma^ as integer matrices, their
+\* positive definiteness (leading minors), 2 G~ = 2 * Gram of the points relative to the first one
+\* (embeddable), and how both change under a permutation of the conditions (a congruence with an
+\* integer matrix of determinant +-1, which leaves the generalised eigenvalues alone).  The minimisation
+\* over (t0, t1), log and the eigenvalues belong to the kernel.
+NR1 == NC - 1
+Riem2(x) == [i \in 1..NR1 |-> [j \in 1..NR1 |->
+               IF i = j THEN 2 * x[CidxU(1, i + 1)]
+               ELSE x[CidxU(1, i + 1)] + x[CidxU(1, j + 1)] - x[CidxU(i + 1, j + 1)]]]
+SigHat(s) == LET S == SigmaMat(s) IN
+             [i \in 1..NR1 |-> [j \in 1..NR1 |-> S[1][1] - S[1][j + 1] - S[i + 1][1] + S[i + 1][j + 1]]]
+Det2(M) == M[1][1] * M[2][2] - M[1][2] * M[2][1]
+Det3g(M) == M[1][1] * (M[2][2] * M[3][3] - M[2][3] * M[3][2])
+          - M[1][2] * (M[2][1] * M[3][3] - M[2][3] * M[3][1])
+          + M[1][3] * (M[2][1] * M[3][2] - M[2][2] * M[3][1])
+\* positive definite by leading principal minors (matrices of size NC-1 <= 3)
+PosDef(M) == /\ M[1][1] > 0
+             /\ (NR1 >= 2 => Det2(M) > 0)
+             /\ (NR1 >= 3 => Det3g(M) > 0)
+\* the change of reference condition under "new condition p is old condition pi[p]":
+\* e(pi[p]) - e(pi[1]) = c(pi[p]) - c(pi[1]) in the old contrasts c(k) = e(k) - e(1), c(1) = 0
+RiemM(pi) == [p \in 1..NR1 |-> [k \in 1..NR1 |->
+                (IF pi[p + 1] = k + 1 THEN 1 ELSE 0) - (IF pi[1] = k + 1 THEN 1 ELSE 0)]]
+Congr(M, G) == [i \in 1..NR1 |-> [j \in 1..NR1 |->
+                  Sum([k \in 1..NR1 |-> M[i][k] * Sum([l \in 1..NR1 |-> G[k][l] * M[j][l]])])]]
+RelPts(cfg) == [i \in 1..NR1 |-> [d \in DOMAIN cfg[1] |-> cfg[i + 1][d] - cfg[1][d]]]
+
 (* ---------------- the statistics of one pair ----------------------------- *)
 Stat(m, x, y) ==
   CASE m = "cosine"   -> DotStat(x, y)
@@ -161,6 +197,7 @@ Stat(m, x, y) ==
     [] m = "rho-a"    -> LET n == Len(x)  d == n * n * n - n IN S3(3 * Dot(CRank2(x), CRank2(y)), d, d)
     [] m = "cosine_cov" -> [u |-> x, v |-> y]
     [] m = "corr_cov"   -> [u |-> Cen(x), v |-> Cen(y)]
+    [] m = "neg_riem_dist" -> [g1 |-> Riem2(x), g2 |-> Riem2(y)]      \* Sigma^ : SigHat(sigma)
 \* the result matrix: entry (i,j) pairs RDM i of the first with RDM j of the second stack
 Result(m, A, B, PA, PB) ==
   IF m \in BuresMethods
@@ -169,6 +206,7 @@ Result(m, A, B, PA, PB) ==
 
 \* the generator constraint: inputs on which the measure is 0/0 are excluded (and counted by the harness)
 AdmVec(m, x) == CASE m \in {"cosine", "cosine_cov", "bures", "bures_metric"} -> {k \in 1..Len(x) : x[k] # 0} # {}
+                  [] m \in RiemMethods -> PosDef(Riem2(x))      \* affinely independent points
                   [] m \in {"corr", "corr_cov", "spearman", "kendall"} -> ~IsConst(x)
                   [] OTHER -> TRUE
 AdmStack(m, A) == \A i \in 1..Len(A) : AdmVec(m, A[i])
@@ -195,15 +233,18 @@ NoMove == [k |-> "none", side |-> 0, arg |-> <<>>, a0 |-> <<>>, b0 |-> <<>>]
 Mv(k, side, arg) == [k |-> k, side |-> side, arg |-> arg, a0 |-> a, b0 |-> b]
 
 Init == /\ method \in Methods
-        /\ IF method \in BuresMethods
+        /\ IF method \in PointMethods
            THEN /\ pa \in [1..1 -> Configs] /\ pb \in [1..1 -> Configs]
                 /\ a = [i \in 1..Len(pa) |-> RdmOf(pa[i])]
                 /\ b = [i \in 1..Len(pb) |-> RdmOf(pb[i])]
            ELSE /\ pa = <<>> /\ pb = <<>>
                 /\ \E sh \in Shapes : a \in [1..sh[1] -> Vecs] /\ b \in [1..sh[2] -> VecsB]
+        /\ (method \in BuresMethods => \A i \in 1..NC : pa[1][i][3] = 0 /\ pb[1][i][3] = 0)   \* planar: Nuc2
         /\ IF Degenerate THEN NDeg(method, a) + NDeg(method, b) = 1
            ELSE AdmStack(method, a) /\ AdmStack(method, b)
-        /\ sid \in (IF method \in CovMethods THEN 1..Len(Sigmas) ELSE {0})
+        /\ sid \in (IF method \in CovMethods THEN 1..Len(Sigmas)
+                    ELSE IF method \in RiemMethods     \* sigma_k None or a matrix (a vector is not accepted)
+                    THEN {k \in 1..Len(Sigmas) : Sigmas[k].kind # "vec"} ELSE {0})
         /\ sigma = IF sid = 0 THEN NoSigma ELSE Sigmas[sid]
         /\ pc = "in" /\ res = <<>> /\ mv = NoMove
 
@@ -213,7 +254,7 @@ Compute == /\ pc = "in"
            /\ UNCHANGED <<a, b, pa, pb, method, sid, sigma, mv>>
 
 Movable == /\ pc = "out" /\ ~Degenerate
-           /\ IF method \in BuresMethods
+           /\ IF method \in PointMethods
               THEN (\A i \in 1..Len(pa) : pa[i] \in MoveConfigs) /\ (\A j \in 1..Len(pb) : pb[j] \in MoveConfigs)
               ELSE (\A i \in 1..Len(a) : a[i] \in MoveVecs) /\ (\A j \in 1..Len(b) : b[j] \in MoveVecs)
 Moved(A, B, PA, PB, s, m) == /\ a' = A /\ b' = B /\ pa' = PA /\ pb' = PB /\ sigma' = s /\ mv' = m
@@ -232,7 +273,7 @@ MoveMono == /\ Movable /\ "mono" \in Moves /\ method \in RankMethods
             /\ \/ \E f \in StrictInc(ValsOf(a)) : Moved(MapStack(a, f), b, pa, pb, sigma, Mv("mono", 1, f))
                \/ \E f \in StrictInc(ValsOf(b)) : Moved(a, MapStack(b, f), pa, pb, sigma, Mv("mono", 2, f))
 \* positive scaling: for every measure but the (unnormalised) Bures metric
-MoveScale == /\ Movable /\ "scale" \in Moves /\ method \notin BuresMethods
+MoveScale == /\ Movable /\ "scale" \in Moves /\ method \notin PointMethods
              /\ \E c \in Scales :
                   \/ Moved(LinStack(a, c, 0), b, pa, pb, sigma, Mv("scale", 1, <<c, 0>>))
                   \/ Moved(a, LinStack(b, c, 0), pa, pb, sigma, Mv("scale", 2, <<c, 0>>))
@@ -247,13 +288,14 @@ Spec == Init /\ [][Next]_vars
 
 (* ---------------- theorems on the "out" states (C03 clause g, a) ---------- *)
 IsCov == method \in CovMethods
+IsRiem == method \in RiemMethods
 Out == pc = "out"
 Entries == {ij \in (1..Len(a)) \X (1..Len(b)) : TRUE}
 \* an entry is demanded when both of its RDMs are non-degenerate for the method (always, unless Degenerate)
 Demanded == {ij \in Entries : AdmVec(method, a[ij[1]]) /\ AdmVec(method, b[ij[2]])}
 
 \* |value| <= 1 : Cauchy-Schwarz on the statistics (for Bures: fidelity^2 <= trA * trB)
-CauchySchwarz == (Out /\ ~IsCov) =>
+CauchySchwarz == (Out /\ ~IsCov /\ ~IsRiem) =>
    \A ij \in Demanded : LET s == res[ij[1]][ij[2]] IN
       /\ s.aa > 0 /\ s.bb > 0
       /\ IF method \in {"tau-a", "rho-a"} THEN Abs(s.ab) <= s.aa       \* aa = bb, avoids the product
@@ -265,13 +307,16 @@ CauchySchwarz == (Out /\ ~IsCov) =>
 UndemandedIsZeroNorm == Out => \A ij \in Entries :
    LET s == res[ij[1]][ij[2]]
        zero == IF IsCov THEN (\A k \in DOMAIN s.u : s.u[k] = 0) \/ (\A k \in DOMAIN s.v : s.v[k] = 0)
+               ELSE IF IsRiem THEN ~PosDef(s.g1) \/ ~PosDef(s.g2)
                ELSE s.aa = 0 \/ s.bb = 0 IN
    zero <=> ij \notin Demanded
 
 \* symmetric in the two arguments: swapping the RDMs swaps aa and bb and keeps ab
 StatOfPair(x, y, px, py) == IF method \in BuresMethods THEN BuresStat(CenPts(px), CenPts(py))
                             ELSE Stat(method, x, y)
-Flip(s) == IF "u" \in DOMAIN s THEN [u |-> s.v, v |-> s.u] ELSE S3(s.ab, s.bb, s.aa)
+Flip(s) == IF "u" \in DOMAIN s THEN [u |-> s.v, v |-> s.u]
+           ELSE IF "g1" \in DOMAIN s THEN [g1 |-> s.g2, g2 |-> s.g1]       \* (the VALUE is not symmetric)
+           ELSE S3(s.ab, s.bb, s.aa)
 Symmetric == Out => \A ij \in Entries :
    LET i == ij[1]  j == ij[2] IN
    StatOfPair(b[j], a[i], IF pb = <<>> THEN <<>> ELSE pb[j], IF pa = <<>> THEN <<>> ELSE pa[i]) = Flip(res[i][j])
@@ -280,6 +325,7 @@ Symmetric == Out => \A ij \in Entries :
 SelfOne == Out => \A i \in {k \in 1..Len(a) : AdmVec(method, a[k])} :
    LET s == StatOfPair(a[i], a[i], IF pa = <<>> THEN <<>> ELSE pa[i], IF pa = <<>> THEN <<>> ELSE pa[i]) IN
    IF IsCov THEN s.u = s.v
+   ELSE IF IsRiem THEN s.g1 = s.g2          \* exp(t0) = 1, exp(t1) -> 0 : all lambda = 1, distance 0 (infimum)
    ELSE IF method \in BuresMethods THEN s.aa = s.bb /\ s.ab = s.aa * s.aa   \* fidelity(A,A) = tr A
    ELSE IF method \in {"tau-a", "rho-a"} THEN s.aa = s.bb /\ s.ab <= s.aa /\ (s.ab = s.aa <=> NoTies(a[i]))
    ELSE s.ab = s.aa /\ s.aa = s.bb
@@ -313,6 +359,15 @@ Embeddable == (Out /\ method \in BuresMethods) =>
    \A i \in 1..Len(a) : LET c == CenPts(pa[i]) IN
       Kernel2(a[i]) = [p \in 1..NC |-> [q \in 1..NC |-> 2 * Dot(c[p], c[q])]]
 
+\* neg_riem_dist: 2 G~ computed from the RDM vector is twice the Gram matrix of the points relative to the
+\* first one; it and Sigma^ are symmetric, Sigma^ is positive definite, the reference is (admissibility)
+RiemTheorems == (Out /\ IsRiem) =>
+   LET sh == SigHat(sigma) IN
+   /\ PosDef(sh) /\ \A i, j \in 1..NR1 : sh[i][j] = sh[j][i]
+   /\ \A i \in 1..Len(a) : LET r == RelPts(pa[i]) IN
+        Riem2(a[i]) = [p \in 1..NR1 |-> [q \in 1..NR1 |-> 2 * Dot(r[p], r[q])]]
+   /\ \A ij \in Entries : PosDef(res[ij[1]][ij[2]].g2) /\ PosDef(res[ij[1]][ij[2]].g1)
+
 (* ---------------- theorems on the moves (C03 g, C17 h) -------------------- *)
 SameSign(s, t) == Sign(s.ab) = Sign(t.ab)
 \* equal value ab/sqrt(aa*bb): equal sign and equal square, as reduced rationals
@@ -331,6 +386,12 @@ PermInvariant == [][(pc = "out" /\ pc' = "moved" /\ mv'.k = "perm") =>
         /\ \A ij \in Entries : \A k \in 1..L :
               /\ res'[ij[1]][ij[2]].u[k] = res[ij[1]][ij[2]].u[kap[k]]
               /\ res'[ij[1]][ij[2]].v[k] = res[ij[1]][ij[2]].v[kap[k]]
+   ELSE IF IsRiem
+   THEN LET M == RiemM(mv'.arg) IN       \* a congruence: the generalised eigenvalues do not change
+        /\ Abs(IF NR1 = 2 THEN Det2(M) ELSE IF NR1 = 3 THEN Det3g(M) ELSE M[1][1]) = 1
+        /\ SigHat(sigma') = Congr(M, SigHat(sigma))
+        /\ \A ij \in Entries : /\ res'[ij[1]][ij[2]].g1 = Congr(M, res[ij[1]][ij[2]].g1)
+                                /\ res'[ij[1]][ij[2]].g2 = Congr(M, res[ij[1]][ij[2]].g2)
    ELSE res' = res]_vars
 
 SwapTransposes == [][(pc = "out" /\ pc' = "moved" /\ mv'.k = "swap") =>
@@ -357,4 +418,5 @@ Emit == /\ (pc = "out" /\ Pick(EmitMod)) =>
                            a0 |-> mv.a0, b0 |-> mv.b0]))
 \* the V matrices of the catalogue, printed once
 VCatalogue == [s \in 1..Len(Sigmas) |-> VMat(Sigmas[s])]
+SigHatCatalogue == [s \in 1..Len(Sigmas) |-> SigHat(Sigmas[s])]
 =============================================================================
